@@ -51,19 +51,26 @@ TRUSTED = [
     "(harness/online_impl.py:observe)",
 ]
 RULE = (
-    "script = history (linear or branched, 1-4 revisions) x bodies (0-4 DDL/DML statements in plain/autocommit segments, downgrade "
-    "undoes upgrade) x command (upgrade/downgrade from a reachable state); for every script: every config in "
-    "{pysqlite,recipe} x transactional_ddl{default,True} x transaction_per_migration x external-transaction{no,yes}, and EVERY failure "
-    "position (k, pos) of the plan (before/between/after each statement, around autocommit blocks, inside and after the version update), "
-    "each position with an Exception AND with a BaseException that is not an Exception (KeyboardInterrupt / SystemExit / custom "
+    "script = history (linear or branched, 1-4 revisions, 35% of the branched ones with depends_on) x bodies (0-4 DDL/DML statements in "
+    "plain/autocommit segments, downgrade undoes upgrade) x command (upgrade/downgrade from a reachable state); for every script: every "
+    "config in {pysqlite,recipe} x transactional_ddl{default,True} x transaction_per_migration x external-transaction{no,yes}, and EVERY "
+    "failure position (k, pos) of the plan (before/between/after each statement, around autocommit blocks, inside and after the version "
+    "update), each position with an Exception AND with a BaseException that is not an Exception (KeyboardInterrupt / SystemExit / custom "
     "BaseException, round robin; all four kinds for the fixed scripts), on the in-process path and on the command.upgrade/downgrade "
-    "path with the shipped env.py; plus the run without failure; a case is non-trivial when the run raised; distinct by "
-    "(config, plan, k, pos, kind)"
+    "path with the shipped env.py; plus the run without failure. Fixed batteries on every run: (1) the settings given through env.py "
+    "(shipped generic env.py whose online context.configure call additionally receives transactional_ddl / transaction_per_migration / "
+    "on_version_apply: all 8 setting combinations, incl. the after-the-version-update position on the command path); (2) failures raised "
+    "by alembic itself inside the version update (the body deletes the version row, HeadMaintainer's rowcount check raises CommandError "
+    "in _update_version and in _delete_version), all 16 configs + command path; (3) depends_on histories (witnesses of F2/F3), a branch "
+    "point and a merge next to an unrelated head, both directions; (4) the shipped multidb template (two SQLite databases, "
+    "pysqlite and recipe, both directions, every position: the failing database, the already migrated one and the untouched one are "
+    "each judged). A case is non-trivial when the run raised; distinct by (config, plan, k, pos, kind)"
 )
 ASSUMPTIONS = [
     "env.py has the documented shape: with connectable.connect() as connection: configure(connection=...); "
     "with context.begin_transaction(): context.run_migrations()",
-    "an external caller wraps the run in `with connection.begin():` (rollback on exception)",
+    "an external caller wraps the run in `with connection.begin():` (rollback on exception); the shipped multidb env.py is such a caller",
+    "templates/async/env.py is not executed (no async SQLite driver in the sandbox); its synchronous part do_run_migrations has the generic shape",
 ]
 
 PLAN_ERRORS = {"err:multipleHeads", "err:resolution", "err:rangeNotAncestor", "err:revisionError", "err:commandError"}
@@ -116,9 +123,11 @@ def gen_script(rng, max_n):
             r["down"] = [hist[i - 1]["id"]] if i else []
         shape = "linear"
     else:
-        hist = gen_history(rng, n, labels=False, deps=False, p_merge=0.4)
+        hist = gen_history(rng, n, labels=False, deps=rng.random() < 0.35, p_merge=0.4)
         shape = "branched" if any(len(r["down"]) > 1 for r in hist) or sum(1 for r in hist if not r["down"]) > 1 or \
             len({tuple(r["down"]) for r in hist if r["down"]}) < sum(1 for r in hist if r["down"]) else "linear"
+    if any(r.get("deps") for r in hist):
+        shape += "+deps"
     ids = [r["id"] for r in hist]
     if rng.random() < 0.6:
         cmd = "upgrade"
@@ -162,9 +171,9 @@ def n_atoms(mig):
     return sum(len(s["stmts"]) + (2 if s["auto"] else 0) for s in mig["segs"]) + len(mig["vstmts"])
 
 
-def prepare_base(scratch, script, rev_index):
+def prepare_base(scratch, script, rev_index, name="base.sqlite"):
     """database in the start state, reached with the real code (default config, no failure)"""
-    base = oi.new_db(scratch, "base.sqlite")
+    base = oi.new_db(scratch, name)
     for t in script["start"]:
         res, _ = oi.run_inprocess(base, script["hist"], script["bodies"], rev_index, "upgrade", t,
                                   {"engine": "pysqlite", "tddl": None, "perMig": False}, None)
@@ -173,11 +182,16 @@ def prepare_base(scratch, script, rev_index):
     return base
 
 
+def parents_of(hist, rev_index):
+    """what a version row implies: down revisions and dependencies"""
+    return [[rev_index[r["id"]], [rev_index[p] for p in list(r["down"]) + list(r.get("deps") or [])]] for r in hist]
+
+
 def script_cases(ctx, script, configs, runner="inprocess", cfg_obj=None, scratch=None, base=None):
     """yields (inp, impl_result) for every config and every failure position"""
     hist = script["hist"]
     rev_index = {r["id"]: i for i, r in enumerate(hist)}
-    parents = [[rev_index[r["id"]], [rev_index[p] for p in r["down"]]] for r in hist]
+    parents = parents_of(hist, rev_index)
     db0 = oi.observe(base, rev_index)
     work = os.path.join(scratch, "work.sqlite")
 
@@ -186,14 +200,28 @@ def script_cases(ctx, script, configs, runner="inprocess", cfg_obj=None, scratch
         if runner == "inprocess":
             res, orc = oi.run_inprocess(work, hist, script["bodies"], rev_index, script["cmd"], script["target"], config, fail)
         else:
-            cfg_obj.set_main_option("sqlalchemy.url", "sqlite:///" + work)
-            res, orc = oi.run_command(cfg_obj, script["bodies"], rev_index, script["cmd"], script["target"], config["engine"], fail)
+            patched = config.get("env") == "patched"
+            cobj = cfg_obj[1] if patched else cfg_obj[0]
+            cobj.set_main_option("sqlalchemy.url", "sqlite:///" + work)
+            kw = None
+            if patched:
+                kw = {"transaction_per_migration": bool(config["perMig"])}
+                if config.get("tddl") is not None:
+                    kw["transactional_ddl"] = config["tddl"]
+            res, orc = oi.run_command(cobj, script["bodies"], rev_index, script["cmd"], script["target"], config["engine"], fail,
+                                      configure_kw=kw, hook=patched)
         return res, orc, oi.observe(work, rev_index)
 
     for cfg_no, config in enumerate(configs):
+        if config.get("env") == "patched" and not cfg_obj[1].attributes.get("verif_env_patched"):
+            ctx.hist("env_patch", "needle not found in the shipped env.py: settings-through-env.py configs skipped")
+            continue
         res, orc, fin = execute(config, None)
         ctx.evaluation()
-        if res != "ok" and not (res == "err:assertion" and config.get("external")):
+        # alembic's own rowcount check (HeadMaintainer._update_version/_delete_version) raising inside the version
+        # update because the body tampered with the version table: a failure "at any point" not injected by the oracle
+        self_fail = bool(script.get("self_failure")) and res == "err:commandError" and orc.step >= 0
+        if res != "ok" and not (res == "err:assertion" and config.get("external")) and not self_fail:
             ctx.hist("reference_run", res)
             if res not in PLAN_ERRORS:
                 # the run without any injected failure raised something that is not a plan-resolution error
@@ -202,10 +230,14 @@ def script_cases(ctx, script, configs, runner="inprocess", cfg_obj=None, scratch
                 ctx.disagree("online.reference", {"script": script, "config": config}, {"res": res, "final": fin},
                              {"raised": False}, note="run without injected failure raised")
             continue
+        if script.get("self_failure") and not self_fail:
+            ctx.disagree("online.reference", {"script": script, "config": config}, {"res": res, "final": fin},
+                         {"raised": True}, note="the rowcount check of the version update did not raise")
+            continue
         if orc.unparsed:
             ctx.disagree("online.parse", {"script": script, "config": config}, {"unparsed": orc.unparsed}, None)
             continue
-        if res != "ok":
+        if res != "ok" and not self_fail:
             # external transaction + autocommit block: the reference run itself raises; take the plan from a
             # non-external reference run
             res2, orc2, _ = execute(dict(config, external=False), None)
@@ -217,19 +249,20 @@ def script_cases(ctx, script, configs, runner="inprocess", cfg_obj=None, scratch
         plan = build_plan(ref.steps, script["bodies"], rev_index)
         tddl = bool(orc.tddl_seen)
         base_inp = {
-            "mode": ENGINE_MODE[config["engine"]], "tddl": tddl, "perMig": bool(config["perMig"]) if runner == "inprocess" else False,
+            "mode": ENGINE_MODE[config["engine"]], "tddl": tddl, "perMig": bool(config["perMig"]) if (runner == "inprocess" or config.get("env") == "patched") else False,
             "external": bool(config.get("external")),
             "pre": [{"k": "ddl", "a": ["cvt"]}] if not db0["vt"] else [],
             "plan": plan, "db": {k: db0[k] for k in ("objs", "rows", "vt")},
             "upgrade": script["cmd"] == "upgrade", "parents": parents,
         }
         meta = {"runner": runner, "config": config, "script": script}
-        yield dict(base_inp, fail=None), {"res": res, "final": fin, "eff": [orc.step, orc.pos] if res != "ok" else None}, meta
+        ref_fail = {"k": orc.step, "pos": orc.pos, "kind": "exception"} if self_fail else None
+        yield dict(base_inp, fail=ref_fail), {"res": res, "final": fin, "eff": [orc.step, orc.pos] if res != "ok" else None}, meta
         nonexc = ["keyboardInterrupt", "systemExit", "baseException"]
         for k, mig in enumerate(plan):
             for pos in range(0, n_atoms(mig) + 1):
-                if runner != "inprocess" and pos == n_atoms(mig):
-                    continue  # "after the version update" needs an on_version_apply hook: in-process only
+                if runner != "inprocess" and config.get("env") != "patched" and pos == n_atoms(mig):
+                    continue  # "after the version update" needs an on_version_apply hook: in-process / patched env.py only
                 # every position: an Exception and (round robin, deterministic) one BaseException that is not an
                 # Exception; all four kinds when the script asks for it (fixed scripts, exhaustive domain)
                 kinds = ["exception"] + (nonexc if script.get("all_kinds") else [nonexc[(k + pos + cfg_no) % 3]])
@@ -253,6 +286,8 @@ def judge(ctx, pending):
     for i, (inp, impl, meta) in enumerate(pending):
         m, s = ans[2 * i], ans[2 * i + 1]
         rec = {"input": inp, "runner": meta["runner"], "config": meta["config"], "script": meta["script"]}
+        if "multi" in meta:
+            rec["multi"] = meta["multi"]
         obs = {k: impl["final"][k] for k in ("objs", "rows", "vt")}
         bad_obs = impl["final"]["unknown"] or impl["final"]["dup_rows"] or impl["final"]["dup_data"]
         raised = impl["res"] != "ok"
@@ -300,7 +335,11 @@ def run_script(ctx, script, configs, pending, runner="inprocess", flush=True):
         if base is None:
             ctx.hist("setup", "failed")
             return
-        cfg_obj = oi.make_script_dir(scratch, script["hist"], base) if runner == "command" else None
+        cfg_obj = None
+        if runner == "command":
+            cfg_obj = (oi.make_script_dir(scratch, script["hist"], base),
+                       oi.make_script_dir(scratch, script["hist"], base, patch_env=True, name="scripts_cfg")
+                       if any(c.get("env") == "patched" for c in configs) else None)
         ctx.hist("shape", script["shape"])
         ctx.hist("cmd", script["cmd"])
         ctx.hist("revisions", len(script["hist"]))
@@ -334,12 +373,151 @@ FIXED_SCRIPTS = [
 ]
 
 
+def _b(up, down):
+    return {"up": [{"auto": False, "stmts": up}] if up else [], "down": [{"auto": False, "stmts": down}] if down else []}
+
+
+# the body itself deletes the row the version update is about to UPDATE / DELETE: alembic's own rowcount check
+# (HeadMaintainer._update_version / _delete_version) raises CommandError inside the version update, after the
+# statement was executed.  Index 0 = revision a.
+SABOTAGE_SCRIPTS = [
+    {"hist": [{"id": "a", "down": []}, {"id": "b", "down": ["a"]}], "shape": "linear", "cmd": "upgrade", "start": ["a"],
+     "target": "heads", "self_failure": True,
+     "bodies": {"a": _b([["ddl", "add", 0]], [["ddl", "del", 0]]),
+                "b": _b([["ddl", "add", 2], ["dml", "vdel", 0], ["dml", "add", 1]], [["dml", "del", 1], ["ddl", "del", 2]])}},
+    {"hist": [{"id": "a", "down": []}], "shape": "linear", "cmd": "downgrade", "start": ["a"], "target": "base", "self_failure": True,
+     "bodies": {"a": _b([["ddl", "add", 0], ["dml", "add", 1]], [["dml", "del", 1], ["dml", "vdel", 0], ["ddl", "del", 0]])}},
+]
+
+# histories with depends_on (the witnesses of the C03 repairs F2/F3: a row implied by another one)
+DEPS_SCRIPTS = [
+    {"hist": [{"id": "a", "down": []}, {"id": "b", "down": []}, {"id": "c", "down": [], "deps": ["a"]},
+              {"id": "d", "down": ["a", "b"], "deps": ["c"]}], "shape": "branched+deps", "cmd": "upgrade", "start": [], "target": "heads",
+     "bodies": {"a": _b([["ddl", "add", 0]], [["ddl", "del", 0]]), "b": _b([["dml", "add", 1]], [["dml", "del", 1]]),
+                "c": _b([["ddl", "add", 2], ["dml", "add", 3]], [["dml", "del", 3], ["ddl", "del", 2]]),
+                "d": _b([["dml", "add", 5], ["ddl", "add", 4]], [["ddl", "del", 4], ["dml", "del", 5]])}},
+    {"hist": [{"id": "a", "down": []}, {"id": "b", "down": []}, {"id": "c", "down": [], "deps": ["a"]},
+              {"id": "d", "down": ["a"], "deps": ["c"]}], "shape": "branched+deps", "cmd": "downgrade", "start": ["b", "d"], "target": "d@base",
+     "bodies": {"a": _b([["ddl", "add", 0]], [["ddl", "del", 0]]), "b": _b([["dml", "add", 1]], [["dml", "del", 1]]),
+                "c": _b([["ddl", "add", 2], ["dml", "add", 3]], [["dml", "del", 3], ["ddl", "del", 2]]),
+                "d": _b([["dml", "add", 5], ["ddl", "add", 4]], [["ddl", "del", 4], ["dml", "del", 5]])}},
+]
+
+
+# branch point (insert of a second head), merge while an unrelated head exists, and their undoing
+_BM_HIST = [{"id": "a", "down": []}, {"id": "b", "down": ["a"]}, {"id": "c", "down": ["a"]}, {"id": "x", "down": []},
+            {"id": "m", "down": ["b", "c"]}]
+_BM_BODIES = {"a": _b([["ddl", "add", 0]], [["ddl", "del", 0]]), "b": _b([["dml", "add", 1]], [["dml", "del", 1]]),
+              "c": _b([["ddl", "add", 2]], [["ddl", "del", 2]]), "x": _b([["dml", "add", 3]], [["dml", "del", 3]]),
+              "m": _b([["ddl", "add", 4]], [["ddl", "del", 4]])}
+DEPS_SCRIPTS += [
+    {"hist": _BM_HIST, "shape": "branched", "cmd": "upgrade", "start": ["x"], "target": "heads", "bodies": _BM_BODIES},
+    {"hist": _BM_HIST, "shape": "branched", "cmd": "downgrade", "start": ["heads"], "target": "base", "bodies": _BM_BODIES},
+]
+
+
 def fixed_scripts():
     out = []
     for s in FIXED_SCRIPTS:
         out.append(dict(s, all_kinds=True))
         out.append(dict(s, cmd="downgrade", start=["heads"], target="base", all_kinds=True))
     return out
+
+
+# ------------------------------------------------------------------------------------------ multidb template
+# templates/multidb/env.py (online): conn.begin() on every engine, configure + run_migrations per engine WITHOUT
+# begin_transaction (the connection is in an external transaction: alembic must not commit), commit all at the end,
+# `except: rollback all; raise`.  Per database this is the model's external-transaction regime.
+
+def multidb_execute(scratch, cfg, script, rev_index, bases, engine_mode, fail):
+    works = [os.path.join(scratch, "work_engine%d.sqlite" % (i + 1)) for i in range(2)]
+    for b, w in zip(bases, works):
+        shutil.copyfile(b, w)
+        cfg.set_section_option("engine%d" % (works.index(w) + 1), "sqlalchemy.url", "sqlite:///" + w)
+    res, orc = oi.run_command(cfg, script["bodies"], rev_index, script["cmd"], script["target"], engine_mode, fail)
+    for f in ("engine1.sql", "engine2.sql"):
+        if os.path.exists(f):  # pragma: no cover  (offline mode only)
+            os.remove(f)
+    return res, orc, [oi.observe(w, rev_index) for w in works]
+
+
+def multidb_cases(ctx, script, engine_mode, scratch):
+    hist = script["hist"]
+    rev_index = {r["id"]: i for i, r in enumerate(hist)}
+    parents = parents_of(hist, rev_index)
+    bases = [prepare_base(scratch, script, rev_index, "base_engine%d.sqlite" % (i + 1)) for i in range(2)]
+    if None in bases:
+        ctx.hist("setup", "failed")
+        return
+    cfg = oi.make_script_dir(scratch, hist, None, template="multidb", name="multi")
+    db0 = [oi.observe(b, rev_index) for b in bases]
+    res, ref, fins = multidb_execute(scratch, cfg, script, rev_index, bases, engine_mode, None)
+    ctx.evaluation()
+    if res != "ok" or ref.unparsed:
+        ctx.disagree("online.reference", {"script": script, "runner": "multidb"}, {"res": res, "unparsed": ref.unparsed},
+                     {"raised": False}, note="multidb run without injected failure raised")
+        return
+    names = ["engine1", "engine2"]
+    gsteps = [[g for g, st in enumerate(ref.steps) if st["engine"] == nm] for nm in names]
+    plans = [build_plan([ref.steps[g] for g in gs], script["bodies"], rev_index) for gs in gsteps]
+    config = {"engine": engine_mode, "tddl": None, "perMig": False, "external": True, "template": "multidb"}
+
+    def base_inp(i):
+        return {"mode": ENGINE_MODE[engine_mode], "tddl": bool(ref.tddl_seen), "perMig": False, "external": True,
+                "pre": [{"k": "ddl", "a": ["cvt"]}] if not db0[i]["vt"] else [], "plan": plans[i],
+                "db": {k: db0[i][k] for k in ("objs", "rows", "vt")}, "upgrade": script["cmd"] == "upgrade", "parents": parents}
+
+    def meta(i, gfail):
+        return {"runner": "multidb", "config": config, "script": script, "multi": {"db": i, "fail": gfail}}
+
+    for i in range(2):
+        yield dict(base_inp(i), fail=None), {"res": "ok", "final": fins[i], "eff": None}, meta(i, None)
+    nonexc = ["keyboardInterrupt", "systemExit", "baseException"]
+    for e in range(2):
+        for k, g in enumerate(gsteps[e]):
+            mig = plans[e][k]
+            for pos in range(0, n_atoms(mig)):  # no hook in the shipped multidb env.py: not "after the version update"
+                for kind in ("exception", nonexc[(g + pos) % 3]):
+                    res, orc, fins = multidb_execute(scratch, cfg, script, rev_index, bases, engine_mode, (g, pos, kind))
+                    ctx.evaluation()
+                    if res == "ok":
+                        ctx.disagree("online.run", {"script": script, "runner": "multidb", "fail": [g, pos, kind]}, {"res": res}, {"raised": True})
+                        continue
+                    for i in range(2):
+                        if i == e:
+                            f = {"k": k, "pos": pos, "kind": kind}
+                            eff = [orc.step - gsteps[e][0], orc.pos]
+                        elif i < e and plans[i]:
+                            # this database ran all of its migrations; the caller then rolls it back: for the model
+                            # that is a failure after the version update of its last migration
+                            f = {"k": len(plans[i]) - 1, "pos": n_atoms(plans[i][-1]), "kind": kind}
+                            eff = [f["k"], f["pos"]]
+                        else:
+                            # not reached (or nothing to do): only conn.begin() happened on it
+                            same = {x: fins[i][x] for x in ("objs", "rows", "vt")} == {x: db0[i][x] for x in ("objs", "rows", "vt")}
+                            ctx.hist("multidb_untouched_database", "unchanged" if same else "CHANGED")
+                            if not same:
+                                ctx.fail({"script": script, "runner": "multidb", "config": config, "multi": {"db": i, "fail": [g, pos, kind]}},
+                                         "out-of-step: multidb: a database on which no migration ran was changed by the failed run",
+                                         impl={"final": fins[i], "before": db0[i]}, tags=["untouched"])
+                            continue
+                        yield dict(base_inp(i), fail=f), {"res": res, "final": fins[i], "eff": eff}, meta(i, [g, pos, kind])
+
+
+MULTIDB_SCRIPT = {
+    "hist": [{"id": "a", "down": []}, {"id": "b", "down": ["a"]}], "shape": "linear", "cmd": "upgrade", "start": [], "target": "heads",
+    "bodies": {"a": _b([["ddl", "add", 0], ["dml", "add", 1]], [["dml", "del", 1], ["ddl", "del", 0]]),
+               "b": _b([["dml", "add", 3], ["ddl", "add", 2]], [["ddl", "del", 2], ["dml", "del", 3]])},
+}
+
+
+def multidb_battery(ctx, pending):
+    for script in (MULTIDB_SCRIPT, dict(MULTIDB_SCRIPT, cmd="downgrade", start=["heads"], target="base")):
+        for engine_mode in ("pysqlite", "recipe"):
+            with oi.Scratch() as scratch:
+                for case in multidb_cases(ctx, script, engine_mode, scratch):
+                    pending.append(case)
+                    ctx.hist("steps", len(case[0]["plan"]))
 
 
 class _Stub:
@@ -350,6 +528,7 @@ class _Stub:
         self.evaluations = 0
         self.hists = []
         self.disagreements = []
+        self.failures = []
 
     def evaluation(self, n=1):
         self.evaluations += n
@@ -360,6 +539,9 @@ class _Stub:
     def disagree(self, op, input, impl, model, note=""):
         self.disagreements.append({"op": op, "input": input, "impl": impl, "model": model, "note": note})
 
+    def fail(self, input, what, impl=None, tags=()):
+        self.failures.append({"input": input, "what": what, "impl": impl, "tags": list(tags)})
+
 
 def _work(job):
     import warnings
@@ -368,8 +550,11 @@ def _work(job):
     script, configs, runner, thorough = job
     stub = _Stub(thorough)
     pending = []
-    run_script(stub, script, configs, pending, runner, flush=False)
-    return pending, stub.evaluations, stub.hists, stub.disagreements
+    if runner == "multidb":
+        multidb_battery(stub, pending)
+    else:
+        run_script(stub, script, configs, pending, runner, flush=False)
+    return pending, stub.evaluations, stub.hists, stub.disagreements, stub.failures
 
 
 def run_jobs(ctx, jobs, pending):
@@ -393,7 +578,8 @@ def run_jobs(ctx, jobs, pending):
 
 
 def _merge(ctx, res, pending):
-    cases, n_eval, hists, disagreements = res
+    cases, n_eval, hists, disagreements, failures = res
+    ctx.failures.extend(failures)
     ctx.evaluation(n_eval)
     for name, key, n in hists:
         ctx.hist(name, key, n)
@@ -436,7 +622,7 @@ def exhaustive_scripts(max_len=2):
 
 def run(ctx, n_scripts=None, rng_name="main"):
     rng = ctx.rng(rng_name)
-    n = n_scripts if n_scripts is not None else (1000 if ctx.thorough else 12)
+    n = n_scripts if n_scripts is not None else (1000 if ctx.thorough else 10)
     pending = []
     fixed = fixed_scripts()
     jobs = []
@@ -447,11 +633,28 @@ def run(ctx, n_scripts=None, rng_name="main"):
                 {"engine": "recipe", "tddl": None, "perMig": False, "external": False}]
     for s in fixed:
         jobs.append((s, cmd_cfgs, "command"))
+    # the settings of the property given the way a user gives them: in env.py's context.configure(...) (the shipped
+    # generic env.py with that one call extended; reaches EnvironmentContext.configure's option plumbing and makes
+    # the "after the version update" position - an on_version_apply hook - reachable on the command path)
+    env_cfgs = [{"engine": e, "tddl": t, "perMig": pm, "external": False, "env": "patched"}
+                for e in ("pysqlite", "recipe") for t in (None, True) for pm in (False, True)]
+    jobs.append((dict(fixed[0], all_kinds=False), env_cfgs, "command"))
+    jobs.append((dict(fixed[1], all_kinds=False), env_cfgs[1::2] if not ctx.thorough else env_cfgs, "command"))
+    # failures raised by alembic itself inside the version update (rowcount check), every configuration
+    for s in SABOTAGE_SCRIPTS:
+        jobs.append((s, all_configs(rng, True), "inprocess"))
+        jobs.append((s, cmd_cfgs + env_cfgs[3:4], "command"))
+    # histories with depends_on
+    plain_cfgs = [c for c in all_configs(rng, True) if not c["external"]]
+    for s in DEPS_SCRIPTS:
+        jobs.append((s, plain_cfgs if ctx.thorough else plain_cfgs[::2] + plain_cfgs[7:], "inprocess"))
+    jobs.append((DEPS_SCRIPTS[0], cmd_cfgs[:1], "command"))
     for i in range(n):
         script = gen_script(rng, 4 if not ctx.thorough else 6)
         jobs.append((script, all_configs(rng, ctx.thorough), "inprocess"))
         if i % 4 == 0:
-            jobs.append((script, cmd_cfgs, "command"))
+            jobs.append((script, cmd_cfgs + [env_cfgs[(i // 4) % len(env_cfgs)]], "command"))
+    jobs.append(("multidb", None, "multidb"))
     if ctx.thorough and rng_name == "main":
         n_ex = 0
         for script in exhaustive_scripts(2):
@@ -506,15 +709,40 @@ def classify(failure):
 
 def replay(ctx, case):
     rec = case["input"]
-    script, config, inp = rec["script"], rec["config"], rec["input"]
+    script, config = rec["script"], rec["config"]
     rev_index = {r["id"]: i for i, r in enumerate(script["hist"])}
     out = {}
+    if rec.get("runner") == "multidb":
+        multi = rec["multi"]
+        with oi.Scratch() as scratch:
+            bases = [prepare_base(scratch, script, rev_index, "base_engine%d.sqlite" % (i + 1)) for i in range(2)]
+            cfg = oi.make_script_dir(scratch, script["hist"], None, template="multidb", name="multi")
+            f = tuple(multi["fail"]) if multi.get("fail") else None
+            res, orc, fins = multidb_execute(scratch, cfg, script, rev_index, bases, config["engine"], f)
+        out["impl"] = {"res": res, "final_engine1": fins[0], "final_engine2": fins[1], "failed_at_global_step": [orc.step, orc.pos],
+                       "database_judged": multi["db"]}
+        fin = fins[multi["db"]]
+        if "input" in rec:
+            inp = rec["input"]
+            out["model"] = ctx.drv.ask1({"op": "online.run", **inp})
+            out["spec"] = ctx.drv.ask1({"op": "online.spec", **inp, "final": {k: fin[k] for k in ("objs", "rows", "vt")}})
+        return out
+    inp = rec["input"]
     with oi.Scratch() as scratch:
         base = prepare_base(scratch, script, rev_index)
         fail = (inp["fail"]["k"], inp["fail"]["pos"], inp["fail"].get("kind", "exception")) if inp.get("fail") else None
+        if script.get("self_failure") and fail is not None and fail[1] >= n_atoms(inp["plan"][fail[0]]) and fail[2] == "exception":
+            fail = None  # the failure is alembic's own rowcount check, nothing is injected
         if rec.get("runner") == "command":
-            cfg_obj = oi.make_script_dir(scratch, script["hist"], base)
-            res, orc = oi.run_command(cfg_obj, script["bodies"], rev_index, script["cmd"], script["target"], config["engine"], fail)
+            patched = config.get("env") == "patched"
+            cfg_obj = oi.make_script_dir(scratch, script["hist"], base, patch_env=patched)
+            kw = None
+            if patched:
+                kw = {"transaction_per_migration": bool(config["perMig"])}
+                if config.get("tddl") is not None:
+                    kw["transactional_ddl"] = config["tddl"]
+            res, orc = oi.run_command(cfg_obj, script["bodies"], rev_index, script["cmd"], script["target"], config["engine"], fail,
+                                      configure_kw=kw, hook=patched)
         else:
             res, orc = oi.run_inprocess(base, script["hist"], script["bodies"], rev_index, script["cmd"], script["target"], config, fail)
         fin = oi.observe(base, rev_index)
